@@ -2,6 +2,8 @@ use crate::engine::report::{Tier, Violation};
 use std::cell::Cell;
 
 pub mod common;
+pub mod door;
+pub mod c01;
 pub mod c02;
 pub mod c03;
 pub mod c04;
@@ -37,6 +39,7 @@ pub fn guarded<T>(f: impl FnOnce() -> T) -> Result<T, String> {
 
 pub fn run(id: &str, tier: Tier) -> i32 {
     match id {
+        "C01" => c01::run(tier),
         "C02" => c02::run(tier),
         "C03" => c03::run(tier),
         "C04" => c04::run(tier),
@@ -54,6 +57,7 @@ pub fn run(id: &str, tier: Tier) -> i32 {
 pub fn replay(id: &str, file: &serde_json::Value) -> i32 {
     let case = &file["case"];
     let f: fn(&serde_json::Value) -> Result<(), Violation> = match id {
+        "C01" => c01::replay,
         "C02" => c02::replay,
         "C03" => c03::replay,
         "C04" => c04::replay,
